@@ -83,6 +83,14 @@ pub fn check_message(c: &MsgCase) -> Check {
     ensure!(c.rda.hw.len() == 60, "replay-format", "need 60 halfwords");
     let m = no_panic("decode_rda_status_message", || decode(&c.rda))??;
     check_layout(&c.rda, &m)?;
+    // the same bytes delivered in short reads must decode to the same message
+    let raw = c.rda.encode();
+    for step in crate::runner::CHUNK_STEPS {
+        let mut r = crate::runner::Chunked::new(&raw, step);
+        let mc = no_panic("decode_rda_status_message", || rda::decode_rda_status_message(&mut r))?
+            .map_err(|e| Fail::new("rda:decode-error-short-reads", format!("reader delivering {} byte(s) per read: {:?}", step, e)))?;
+        ensure!(mc == m, "rda-layout:depends-on-read-chunking", "message decoded from a reader delivering {} byte(s) per read differs from the slice decode", step);
+    }
     // frame path
     let msg = MsgSpec { header: c.header.clone(), body: BodySpec::Rda(c.rda.clone(), c.filler.clone()) };
     let bytes = msg.encode();
